@@ -12,6 +12,7 @@ RULES = {
     "C09.R3": "single source: the dynamic path (qforward) and freeze obtain the quantized weight only through self.qweight; quantize_weight is called nowhere else under nn/ and with the module's own configuration",
     "C09.R4": "packing typestate: QBitsTensor.__init__ stores a packed payload on every path; create() forwards all its arguments in order",
     "C09.R6": "lifecycle ops keep the tensor: the detach and _to_copy handlers (run by Parameter(), freeze and Module.to on a frozen weight) rebuild with the source's own qtype, axis, group size, size and stride, and pass payload / scale / zero-point through the op only",
+    "C09.R7": "compact storage: the packer every frozen low-bit weight goes through stores ceil(rows x bits / 8) payload rows for every row count (rules C04.R2/R3), and the 8-bit detach/move handlers that Parameter(), freeze and Module.to run keep payload and scale through the op only (rules of C05.R5)",
     "C09.R5": "lifecycle ops: every class that can be a frozen weight has handlers for detach (Parameter), _to_copy (.to) and clone (deepcopy)",
 }
 
@@ -74,6 +75,21 @@ def run(chk):
     lifecycle(chk)
     from .c06 import moves_rule
     moves_rule(chk, r2="C09.R6", r4="C09.R6")
+    from ..report import AliasedCheck
+    from . import c04
+    c04.run(AliasedCheck(chk, {"C04.R2": "C09.R7", "C04.R3": "C09.R7"}))
+    from .. import handrules
+    n7 = 0
+    for r in handrules.analyse(repo, chk.tier):
+        if r.pid == "C05" and r.rule in ("C05.R4", "C05.R5") and r.function in ("detach", "_to_copy", "clone"):
+            n7 += 1
+            if r.verdict == "ok":
+                chk.ok("C09.R7", r.site, r.detail)
+            elif r.verdict == "bad":
+                chk.bad("C09.R7", r.site, r.function, r.tag, r.detail, (r.witness or "") + " - run by Parameter() in freeze(), by freeze-again and by Module.to on a frozen 8-bit weight")
+            else:
+                chk.unknown("C09.R7", r.site, r.detail)
+    chk.floor("C09.R7", n7, 2, "8-bit lifecycle handler obligations")
 
 
 def qweight_source(chk, r2="C09.R2", r3="C09.R3"):
